@@ -135,6 +135,7 @@ fn main() {
             let mut rep = Report::new("C04", tier, "model_checking", "sim");
             rep.rule = "complete fault grid: workload (TCP with a reading / non-reading / slow-accepting victim and two reconnecting peers, UDP + multicast holder, idle host with nested spawn / spawn_local tasks) x {crash before step c then bounce after 0/1/3 steps or never | bounce without crash before step c | crash, bounce, crash again} x victim selected by name or regex, c over every step of the workload; drop guards at crash return, frozen side effects while down, empty socket tables (count hook), no peer operation left hanging after a 40-step fair suffix, ports bindable by the next incarnation, factory invocations = 1 + bounces, no old-stream bytes or stale multicast membership at the new incarnation, uninvolved hosts' logs identical to the crash-free twin".into();
             run_dfs(&mut rep, "crash-bounce-grid", 0, wall, move |ch| c04::scenario(ch, thorough));
+            run_dfs(&mut rep, "fs-ring-workload-on-fresh-threads", 0, wall, move |ch| c04::fresh_thread_scenario(ch, thorough));
             rep.finish();
         }
         "C05" => {
@@ -310,7 +311,13 @@ fn replay(path: &str) {
             }
             e
         }
-        "C04" => c04::scenario(&mut ch, thorough),
+        "C04" => {
+            if v["scenario"].as_str().map(|s| s.starts_with("c04-fresh-thread")).unwrap_or(false) {
+                c04::fresh_thread_scenario(&mut ch, thorough)
+            } else {
+                c04::scenario(&mut ch, thorough)
+            }
+        }
         "C05" => timegrid::c05_scenario(&mut ch, thorough),
         "C11" => timegrid::c11_scenario(&mut ch, thorough),
         "C20" => {
